@@ -432,6 +432,15 @@ let () =
     | BIllFormed -> ps "illformed"
     | BFuel -> ps "fuel")
 
+
+(* ---- row-compressed table encoder (Gen/TableEnc.v) ---- *)
+let () =
+  reg "tableenc" (fun c ->
+    let rows = list (fun c -> let i = nat c in let r = list z c in (i, r)) c in
+    match x_table_build rows with
+    | Some arr -> ps "some"; plist pz arr
+    | None -> ps "none")
+
 let () =
   try
     while true do
